@@ -1,6 +1,10 @@
 package serve
 
-import "verifharness/internal/routing"
+import (
+	"fmt"
+
+	"verifharness/internal/routing"
+)
 
 func tinyCfg() *Cfg {
 	rt := routing.RouteDecl{ID: 0, Method: "GET", Rel: ""}
@@ -22,15 +26,75 @@ func WitnessF09() bool {
 	return r.Coded && r.CE == "gzip"
 }
 
-// WitnessF18: recovery on, a panicking container filter around a HandleWithFilter handler escapes ServeHTTP.
-func WitnessF18() bool {
-	cfg := tinyCfg()
-	cfg.Recover = true
-	cfg.CF = []Filter{{ID: 1, Kind: "pass", Pre: []Act{{K: "panic", B: "p"}}}}
-	c, err := Build(cfg)
-	if err != nil {
-		return false
+// Regression is one fixed case that must hold on the real code: a former witness of a repaired finding.
+type Regression struct {
+	Name string
+	H    *History // one request: real observation, model, the driver's verdicts
+	Why  string   // empty = holds
+}
+
+// RegressionsF18 are the former witness of finding F18 (repaired by a0e838d: HandleWithFilter now
+// installs the same deferred recover as dispatch) and its neighbours.  With recovery on, a panic in
+// a container filter in front of a HandleWithFilter handler — or in the handler behind it — must
+// not leave the entry point, the recover handler must have run exactly once, the ledger must be
+// balanced, and Spec.c10Holds (evaluated by the driver on the REAL observation) must be true.
+// A case that fails is a violation of C10, replayable from its protocol line.
+func RegressionsF18() ([]Regression, error) {
+	panicking := []Filter{{ID: 1, Kind: "pass", Pre: []Act{{K: "panic", B: "p"}}}}
+	passing := []Filter{{ID: 1, Kind: "pass", Pre: []Act{{K: "w", B: "a"}}, Post: []Act{{K: "w", B: "z"}}}}
+	custom := []Act{{K: "wh", N: 503}, {K: "w", B: "r"}}
+	type tc struct {
+		name    string
+		cf      []Filter
+		plain   []Act
+		hasRS   bool
+		enc     bool
+		ae      string
+		entry   string
+		status  int // expected status, 0 = not checked
+		handler bool
 	}
-	r := Serve(c, cfg, SReq{Req: routing.Req{Method: "GET", Path: PlainFPath}, Entry: "serveHandleF"}, Install("pool"))
-	return r.Escaped != nil
+	cases := []tc{
+		{name: "F18 former witness: panicking container filter, HandleWithFilter through ServeHTTP, default recover handler", cf: panicking, entry: "serveHandleF", status: 500},
+		{name: "panicking container filter, HandleWithFilter through ServeHTTP, custom recover handler", cf: panicking, hasRS: true, entry: "serveHandleF", status: 503},
+		{name: "panicking container filter, HandleWithFilter through the mux alone, custom recover handler", cf: panicking, hasRS: true, entry: "muxHandleF", status: 503},
+		{name: "panicking handler behind a container filter that wrote, HandleWithFilter through ServeHTTP, custom recover handler", cf: passing, plain: []Act{{K: "panic", B: "h"}}, hasRS: true, entry: "serveHandleF", status: 200, handler: true},
+		{name: "panicking container filter, HandleWithFilter through ServeHTTP, gzip, custom recover handler", cf: panicking, hasRS: true, enc: true, ae: "gzip", entry: "serveHandleF", status: 503},
+		{name: "panicking handler behind a container filter that wrote, HandleWithFilter through the mux alone, deflate, custom recover handler", cf: passing, plain: []Act{{K: "w", B: "x"}, {K: "panic", B: "h"}}, hasRS: true, enc: true, ae: "deflate", entry: "muxHandleF", status: 200, handler: true},
+	}
+	var out []Regression
+	for _, c := range cases {
+		cfg := tinyCfg()
+		cfg.Recover = true
+		cfg.CF = c.cf
+		cfg.Plain = c.plain
+		cfg.Enc = c.enc
+		if c.hasRS {
+			cfg.HasRS, cfg.RScript = true, custom
+		}
+		h, err := RunOne(cfg, []SReq{{Req: routing.Req{Method: "GET", Path: PlainFPath}, AE: c.ae, Entry: c.entry}})
+		if err != nil {
+			return nil, err
+		}
+		real := h.Real[0]
+		why := ""
+		switch {
+		case real.Escaped != nil:
+			why = "the panic escaped the entry point: " + *real.Escaped
+		case c.hasRS && real.Recov != 1:
+			why = fmt.Sprintf("the recover handler ran %d times, not once", real.Recov)
+		case c.status != 0 && real.Status != c.status:
+			why = fmt.Sprintf("status %d, expected %d", real.Status, c.status)
+		case real.Acq != real.Rel || real.DblRel != 0 || !real.Complete:
+			why = fmt.Sprintf("compressor ledger: acquired %d released %d anomalies %d complete %v", real.Acq, real.Rel, real.DblRel, real.Complete)
+		case c.ae != "" && !real.Coded:
+			why = "the response was not encoded"
+		case h.Spec[0]["C10"] != "1":
+			why = "the real observation falsifies Spec.c10Holds"
+		case ProjPanic(real, false) != ProjPanic(h.Model[0], false):
+			why = "model and implementation disagree on the C10 projection"
+		}
+		out = append(out, Regression{Name: c.name, H: h, Why: why})
+	}
+	return out, nil
 }
